@@ -69,6 +69,22 @@ func (e *Engine) atomBounds(a Atom) ival {
 				return nn
 			}
 		}
+	case Ite:
+		a, b := e.linBounds(x.Then), e.linBounds(x.Else)
+		out := ival{hasLo: a.hasLo && b.hasLo, hasHi: a.hasHi && b.hasHi}
+		if out.hasLo {
+			out.lo = a.lo
+			if b.lo < out.lo {
+				out.lo = b.lo
+			}
+		}
+		if out.hasHi {
+			out.hi = a.hi
+			if b.hi > out.hi {
+				out.hi = b.hi
+			}
+		}
+		return out
 	case App:
 		if v, ok := e.NonNeg[x.Fn]; ok && v {
 			return nn
@@ -156,6 +172,28 @@ func (e *Engine) ProveGE0(d Lin) (bool, string) {
 	return false, fmt.Sprintf("cannot show %s >= 0", d.Key())
 }
 
+// proveAt decides d >= 0 at a program point in block b: in the body of a loop (after the loop condition
+// held) the element index is at most the trip count minus one.
+func (e *Engine) proveAt(d Lin, b *ssa.BasicBlock) (bool, string) {
+	for _, k := range d.sorted() {
+		t, ok := d.T[k]
+		if !ok || t.K >= 0 {
+			continue
+		}
+		ix, isIdx := t.A.(Idx)
+		if !isIdx {
+			continue
+		}
+		li := e.loops[ix.ID]
+		if li == nil || !li.ok || !li.blocks[b] || b == li.header {
+			continue
+		}
+		// d = d0 - |K|*idx >= d0 - |K|*(count-1)
+		d = d.Add(AtomLin(ix).Scale(-t.K)).Add(li.count.Add(Const(-1)).Scale(t.K))
+	}
+	return e.ProveGE0(d)
+}
+
 // ProveSlice decides 0 <= low <= high <= len(x) for a slice expression of the root frame.
 func (f *Frame) ProveSlice(in *ssa.Slice) (bool, string) {
 	b := in.Block()
@@ -186,13 +224,13 @@ func (f *Frame) ProveSlice(in *ssa.Slice) (bool, string) {
 		}
 		hi = iv.L
 	}
-	if ok, why := f.e.ProveGE0(lo); !ok {
+	if ok, why := f.e.proveAt(lo, b); !ok {
 		return false, "low bound: " + why
 	}
-	if ok, why := f.e.ProveGE0(hi.Sub(lo)); !ok {
+	if ok, why := f.e.proveAt(hi.Sub(lo), b); !ok {
 		return false, "high - low: " + why
 	}
-	if ok, why := f.e.ProveGE0(ln.Sub(hi)); !ok {
+	if ok, why := f.e.proveAt(ln.Sub(hi), b); !ok {
 		return false, "len - high: " + why
 	}
 	return true, fmt.Sprintf("low = %s, high = %s, len = %s", lo.Key(), hi.Key(), ln.Key())
@@ -210,7 +248,7 @@ func (f *Frame) ProveMinLen(v ssa.Value, at ssa.Instruction, n int64) (bool, str
 	default:
 		return false, "the length of the operand is not a symbolic size"
 	}
-	if ok, why := f.e.ProveGE0(ln.Sub(Const(n))); !ok {
+	if ok, why := f.e.proveAt(ln.Sub(Const(n)), b); !ok {
 		return false, why
 	}
 	return true, fmt.Sprintf("len = %s", ln.Key())
@@ -242,4 +280,29 @@ func (e *Engine) SizeOf(fn *ssa.Function) (Lin, bool) {
 		}
 	}
 	return Lin{}, false
+}
+
+// ProveIndex decides 0 <= index < len(x) for an element address of the root frame.
+func (f *Frame) ProveIndex(in *ssa.IndexAddr) (bool, string) {
+	b := in.Block()
+	var ln Lin
+	switch x := f.at(f.resolve(f.eval(in.X)), b).(type) {
+	case SliceV:
+		ln = x.Len
+	case ArrV:
+		ln = Const(x.N)
+	default:
+		return false, "the length of the indexed operand is not a symbolic size"
+	}
+	iv, ok := f.at(f.resolve(f.eval(in.Index)), b).(IntV)
+	if !ok {
+		return false, "the index is not a symbolic size"
+	}
+	if ok, why := f.e.proveAt(iv.L, b); !ok {
+		return false, "index: " + why
+	}
+	if ok, why := f.e.proveAt(ln.Sub(iv.L).Add(Const(-1)), b); !ok {
+		return false, "len - index - 1: " + why
+	}
+	return true, fmt.Sprintf("index = %s, len = %s", iv.L.Key(), ln.Key())
 }
